@@ -190,8 +190,14 @@ def c_diff(ctx, case):
                 ctx.fail("C10.diff", case, f"derivative-eval:{got[1]}",
                          f"d/d{wrt} of {e} is {de}; evaluating it at {pt} raised {got[1]}")
                 continue
-            if isinstance(got[1], (float, complex)) and not cmath.isfinite(got[1]) \
-                    and cmath.isfinite(complex(ref.d)):
+            try:
+                ref_finite = cmath.isfinite(complex(ref.d))
+            except (OverflowError, TypeError):
+                ref_finite = False
+            if not ref_finite:
+                ctx.count("reference_derivative_not_finite_in_floats")
+                continue
+            if isinstance(got[1], (float, complex)) and not cmath.isfinite(got[1]):
                 # float overflow inside the derivative (huge**997 * 0 -> inf * 0 -> nan): the
                 # point is outside what binary floats can carry, not a statement about the rule
                 ctx.count("derivative_not_finite_in_floats")
@@ -287,6 +293,20 @@ SPECIAL = [
     lambda: pf.sign(X) * X, lambda: pf.fabs(p.Product((X, Y))),
     lambda: p.If(p.Comparison(X, "<", Y), p.Power(X, 2), p.Product((3, X))),
     lambda: p.Call(var("f"), (X,)), lambda: p.Call(p.Lookup(var("math"), "atan"), (X,)),
+    # a power of a power with constant exponents: (x**2)**0.5 is |x|, not x (negative points!)
+    lambda: p.Power(p.Power(X, 2), 0.5), lambda: p.Power(p.Power(X, 2), 1.5),
+    lambda: p.Power(p.Power(p.Sum((X, Z)), 2), 0.5), lambda: p.Power(p.Power(X, 4), 0.25),
+    lambda: p.Product((Y, p.Power(p.Power(p.Product((X, Y)), 2), 0.5))),
+    lambda: p.Power(p.Power(X, 2), 3), lambda: p.Power(p.Power(p.Sum((p.Power(X, 2), 1)), 0.5), 3),
+    # table functions of CONSTANT arguments (the chain rule meets a zero inner derivative and,
+    # for log, an integer reciprocal), bare, as a factor and wrapped
+    lambda: p.Product((p.Call(p.Lookup(var("math"), "log"), (2,)), X)),
+    lambda: p.Call(p.Lookup(var("math"), "log"), (3,)),
+    lambda: p.Sum((p.Call(p.Lookup(var("math"), "sin"), (2,)), p.Product((X, Y)))),
+    lambda: p.Product((p.Call(p.Lookup(var("math"), "exp"), (p.CommonSubexpression(2),)), X)),
+    lambda: p.Call(p.Lookup(var("math"), "log"), (p.Product((2, 3)),)),
+    lambda: p.Power(X, p.Call(p.Lookup(var("math"), "log"), (2,))),
+    lambda: p.Call(p.Lookup(var("math"), "tan"), (p.Sum((1, 1)),)),
     lambda: p.Sum((X, p.If(p.Comparison(Y, "<", 1), X, Y))),
 ]
 
